@@ -757,6 +757,7 @@ fn process_item(repo: &str, req: &Value, cache: &mut BTreeMap<String, (String, s
     };
     let _ = base;
 
+    collect_macro_rules(&ast.items);
     let found = find_item(&src, &ast.items, sel)?;
     let mut cx = Ctx { src: &src, edits: Vec::new(), seq: 0, rules: BTreeMap::new() };
 
@@ -945,6 +946,19 @@ fn finish(
                     }
                     cx.rep(*s, *e, &format!("vx_assert({} == {})", a[0], a[1]));
                     cx.count("R8(assert_eq! -> vx_assert)");
+                }
+                other if MACRO_RULES.with(|m| m.borrow().contains_key(other)) && req["r4"].as_bool().unwrap_or(true) => {
+                    let (params, body) = MACRO_RULES.with(|m| m.borrow().get(other).cloned().unwrap());
+                    let args = split_top_commas(toks);
+                    if args.len() != params.len() {
+                        return Err(format!("R4: macro {}! called with {} args, {} params", other, args.len(), params.len()));
+                    }
+                    let mut text = body.clone();
+                    for (p_, a_) in params.iter().zip(args.iter()) {
+                        text = text.replace(&format!("$ {}", p_), a_).replace(&format!("${}", p_), a_);
+                    }
+                    cx.rep(*s, *e, &format!("{{ {} }}", text));
+                    cx.count("R4(file-local single-arm macro_rules! expanded by substitution)");
                 }
                 "format" => {
                     cx.rep(*s, *e, "vx_format()");
@@ -1250,6 +1264,47 @@ fn finish(
         "n_closures": col.closures.len(),
         "stripped_tokens_equal_source_modulo_rules": true,
     }))
+}
+
+thread_local! {
+    static MACRO_RULES: std::cell::RefCell<BTreeMap<String, (Vec<String>, String)>> = std::cell::RefCell::new(BTreeMap::new());
+}
+
+/// R4: collect single-arm `macro_rules! name { ($a: ident, $b: ident) => { body }; }` definitions of a file
+fn collect_macro_rules(items: &[syn::Item]) {
+    let mut map = BTreeMap::new();
+    for it in items {
+        if let syn::Item::Macro(m) = it {
+            if m.mac.path.is_ident("macro_rules") {
+                if let Some(name) = &m.ident {
+                    let toks: Vec<TokenTree> = m.mac.tokens.clone().into_iter().collect();
+                    // expect: Group(matcher) '=' '>' Group(body) [';']
+                    if toks.len() >= 4 {
+                        if let (TokenTree::Group(matcher), TokenTree::Group(body)) = (&toks[0], &toks[3]) {
+                            let mut params = Vec::new();
+                            let mt: Vec<TokenTree> = matcher.stream().into_iter().collect();
+                            let mut i = 0;
+                            while i < mt.len() {
+                                if let TokenTree::Punct(p) = &mt[i] {
+                                    if p.as_char() == '$' && i + 1 < mt.len() {
+                                        if let TokenTree::Ident(id) = &mt[i + 1] {
+                                            params.push(id.to_string());
+                                        }
+                                    }
+                                }
+                                i += 1;
+                            }
+                            let single_arm = toks.len() <= 5;
+                            if single_arm {
+                                map.insert(name.to_string(), (params, body.stream().to_string()));
+                            }
+                        }
+                    }
+                }
+            }
+        }
+    }
+    MACRO_RULES.with(|m| *m.borrow_mut() = map);
 }
 
 fn split_top_commas(toks: &str) -> Vec<String> {
